@@ -296,10 +296,17 @@ public class Prim implements ITLCOverrides {
     }
 
     /** Streaming digest of a list of pattern segments <<b, off, lenHi, lenLo>> (len = lenHi*2^20+lenLo). */
+    private static final java.util.Map<String, String> DIGEST_CACHE = new java.util.concurrent.ConcurrentHashMap<>();
+
     @TLAPlusOperator(identifier = "DigestOfSegs", module = "Prim", warn = false)
     public static Value digestOfSegs(final Value alg, final Value segs) {
         String a = s(alg);
         TupleValue t = (TupleValue) segs.toTuple();
+        // identical long streams (e.g. every lane of a manager fed the same 2 GiB segment) are digested once
+        final String key = a + "|" + segs.toString();
+        String hit = DIGEST_CACHE.get(key);
+        if (hit != null)
+            return new StringValue(hit);
         try {
             Object md;
             Hashes.Stream own = null;
@@ -340,7 +347,10 @@ public class Prim implements ITLCOverrides {
                         jd.update(buf, 0, buf.length);
                 }
             }
-            return new StringValue(hex(own != null ? own.digest() : jd.digest()));
+            String res = hex(own != null ? own.digest() : jd.digest());
+            if (DIGEST_CACHE.size() < 4096)
+                DIGEST_CACHE.put(key, res);
+            return new StringValue(res);
         } catch (Exception e) {
             throw new RuntimeException(e);
         }
